@@ -34,6 +34,40 @@ type Solver struct {
 	bin      string
 	log      io.Writer
 	nq       int
+	prefix   []*Term // currently asserted path-condition prefix (one push level each)
+	inPrefix bool
+	lvDefs   [][]int    // term ids defined at each push level (index 0 = base)
+	lvDecls  [][]string // names declared at each push level
+}
+
+func (s *Solver) push() {
+	s.send("(push 1)\n")
+	s.lvDefs = append(s.lvDefs, nil)
+	s.lvDecls = append(s.lvDecls, nil)
+}
+
+func (s *Solver) pop(n int) {
+	if n <= 0 {
+		return
+	}
+	s.send(fmt.Sprintf("(pop %d)\n", n))
+	for i := 0; i < n && len(s.lvDefs) > 1; i++ {
+		if true { // global declarations: definitions survive pop
+			last := len(s.lvDefs) - 1
+			s.lvDefs = s.lvDefs[:last]
+			s.lvDecls = s.lvDecls[:last]
+			continue
+		}
+		last := len(s.lvDefs) - 1
+		for _, id := range s.lvDefs[last] {
+			s.defined[id] = false
+		}
+		for _, nm := range s.lvDecls[last] {
+			delete(s.declared, nm)
+		}
+		s.lvDefs = s.lvDefs[:last]
+		s.lvDecls = s.lvDecls[:last]
+	}
 }
 
 func NewSolver(tt *TermTable, bin string, timeoutMs int) (*Solver, error) {
@@ -47,7 +81,7 @@ func NewSolver(tt *TermTable, bin string, timeoutMs int) (*Solver, error) {
 func (s *Solver) start() error {
 	var cmd *exec.Cmd
 	if strings.Contains(s.bin, "cvc5") {
-		cmd = exec.Command(s.bin, "--incremental", "--lang=smt2", "--produce-models", fmt.Sprintf("--tlimit-per=%d", s.Timeout))
+		cmd = exec.Command(s.bin, "--incremental", "--lang=smt2", "--produce-models", "--global-declarations", fmt.Sprintf("--tlimit-per=%d", s.Timeout))
 	} else {
 		cmd = exec.Command(s.bin, "-in")
 	}
@@ -67,10 +101,15 @@ func (s *Solver) start() error {
 	s.in = in
 	s.out = bufio.NewReaderSize(out, 1<<20)
 	s.defined = nil
+	s.prefix = nil
+	s.inPrefix = false
+	s.lvDefs = [][]int{nil}
+	s.lvDecls = [][]string{nil}
 	s.declared = map[string]bool{}
 	if strings.Contains(s.bin, "cvc5") {
 		s.send("(set-logic ALL)\n")
 	} else {
+		s.send("(set-option :global-decls true)\n")
 		s.send("(set-option :produce-models true)\n")
 		s.send(fmt.Sprintf("(set-option :timeout %d)\n", s.Timeout))
 	}
@@ -143,13 +182,32 @@ func (s *Solver) emit(t *Term, sb *strings.Builder, defined func(id int) bool, s
 
 func (s *Solver) define(ts ...*Term) {
 	var sb strings.Builder
+	lv := 0 // global declarations
+	before := len(s.declared)
+	var declNames map[string]bool
+	if lv > 0 {
+		declNames = map[string]bool{}
+		for k := range s.declared {
+			declNames[k] = true
+		}
+	}
 	for _, t := range ts {
 		s.emit(t, &sb, func(id int) bool { return id < len(s.defined) && s.defined[id] }, func(id int) {
 			for len(s.defined) <= id {
 				s.defined = append(s.defined, false)
 			}
 			s.defined[id] = true
+			if lv > 0 {
+				s.lvDefs[lv] = append(s.lvDefs[lv], id)
+			}
 		}, s.declared)
+	}
+	if lv > 0 && len(s.declared) != before {
+		for k := range s.declared {
+			if !declNames[k] {
+				s.lvDecls[lv] = append(s.lvDecls[lv], k)
+			}
+		}
 	}
 	if sb.Len() > 0 {
 		s.send(sb.String())
@@ -171,7 +229,7 @@ func (s *Solver) Check(assumps []*Term, keepScope bool, want ...*Term) string {
 		if a.IsFalse() {
 			s.Stats.Unsat++
 			if keepScope {
-				s.send("(push 1)\n")
+				s.push()
 			}
 			return "unsat"
 		}
@@ -180,7 +238,7 @@ func (s *Solver) Check(assumps []*Term, keepScope bool, want ...*Term) string {
 	s.define(assumps...)
 	s.define(want...)
 	var sb strings.Builder
-	sb.WriteString("(push 1)\n")
+	s.push()
 	for _, a := range assumps {
 		if a.IsTrue() {
 			continue
@@ -202,7 +260,7 @@ func (s *Solver) Check(assumps []*Term, keepScope bool, want ...*Term) string {
 			s.Stats.Time += time.Since(t0)
 			s.Stats.Unknown++
 			if keepScope {
-				s.send("(push 1)\n")
+				s.push()
 			}
 			return "unknown"
 		}
@@ -227,6 +285,13 @@ func (s *Solver) Check(assumps []*Term, keepScope bool, want ...*Term) string {
 		}
 	}
 	s.Stats.Time += time.Since(t0)
+	if d := time.Since(t0); d > 3*time.Second && os.Getenv("VERIF_PROGRESS") != "" {
+		fmt.Fprintf(os.Stderr, "slow query: %.1fs res=%s prefix=%d\n", d.Seconds(), res, len(s.prefix))
+		if os.Getenv("VERIF_DUMP_SLOW") != "" {
+			all := append(append([]*Term{}, s.prefix...), assumps...)
+			os.WriteFile(fmt.Sprintf("/tmp/slow_%d_%d.smt2", os.Getpid(), s.nq), []byte(Script(all, nil)), 0644)
+		}
+	}
 	switch res {
 	case "sat":
 		s.Stats.Sat++
@@ -236,12 +301,12 @@ func (s *Solver) Check(assumps []*Term, keepScope bool, want ...*Term) string {
 		s.Stats.Unknown++
 	}
 	if !keepScope {
-		s.send("(pop 1)\n")
+		s.pop(1)
 	}
 	return res
 }
 
-func (s *Solver) EndModel() { s.send("(pop 1)\n") }
+func (s *Solver) EndModel() { s.pop(1) }
 
 // Values returns the model values of ts (BV/Bool/FP-as-bits) in the current sat scope.
 func (s *Solver) Values(ts []*Term) ([]uint64, error) {
@@ -253,23 +318,7 @@ func (s *Solver) Values(ts []*Term) ([]uint64, error) {
 			end = len(ts)
 		}
 		var sb strings.Builder
-		// define inside the scope (will be popped; mark not defined afterwards)
-		var tmpDefs []int
-		var dsb strings.Builder
-		for _, t := range ts[base:end] {
-			s.emit(t, &dsb, func(id int) bool { return id < len(s.defined) && s.defined[id] }, func(id int) {
-				for len(s.defined) <= id {
-					s.defined = append(s.defined, false)
-				}
-				s.defined[id] = true
-				tmpDefs = append(tmpDefs, id)
-			}, s.declared)
-		}
-		if dsb.Len() > 0 {
-			// declarations after check-sat invalidate the model in z3; so avoid: caller should pass terms
-			// that are already defined. We still send them (z3 keeps the model for get-value of new defs? no).
-			s.send(dsb.String())
-		}
+		s.define(ts[base:end]...)
 		sb.WriteString("(get-value (")
 		for _, t := range ts[base:end] {
 			if t.S.K == SFP || t.S.K == SArr {
@@ -292,11 +341,6 @@ func (s *Solver) Values(ts []*Term) ([]uint64, error) {
 			return nil, fmt.Errorf("parse get-value: %v in %.200s", err, txt)
 		}
 		copy(out[base:end], vals)
-		// definitions made inside the scope vanish on pop
-		for _, id := range tmpDefs {
-			s.defined[id] = false
-		}
-		_ = tmpDefs
 	}
 	return out, nil
 }
@@ -487,4 +531,45 @@ func OneShot(bin string, args []string, script string, timeout time.Duration) (s
 		}
 	}
 	return "unknown", txt, el
+}
+
+
+// SetPrefix makes the solver's asserted stack equal to pc. The whole prefix lives in a
+// single push level: extending it only adds assertions; anything else re-asserts from scratch.
+func (s *Solver) SetPrefix(pc []*Term) {
+	k := 0
+	for k < len(pc) && k < len(s.prefix) && pc[k] == s.prefix[k] {
+		k++
+	}
+	if k < len(s.prefix) || !s.inPrefix {
+		if s.inPrefix {
+			s.pop(1)
+		}
+		s.push()
+		s.inPrefix = true
+		s.prefix = s.prefix[:0]
+		k = 0
+	}
+	if k == len(pc) {
+		return
+	}
+	var sb strings.Builder
+	for ; k < len(pc); k++ {
+		s.define(pc[k])
+		if !pc[k].IsTrue() {
+			sb.WriteString("(assert " + ref(pc[k]) + ")\n")
+		}
+		s.prefix = append(s.prefix, pc[k])
+	}
+	s.send(sb.String())
+}
+
+// CheckWith decides pc-prefix AND extra (extra may be nil).
+func (s *Solver) CheckWith(pc []*Term, extra *Term, keepScope bool, want ...*Term) string {
+	s.SetPrefix(pc)
+	var as []*Term
+	if extra != nil {
+		as = []*Term{extra}
+	}
+	return s.Check(as, keepScope, want...)
 }
